@@ -27,7 +27,13 @@ Decided:
          parameter; a default expression is not a call evaluated once at definition.  The same kinds are shared in the
          core's classification (R12.a): a parameter's default object whatever the parameter is called, ``cls`` and
          ``__class__`` whatever the class, a local that only names a module-level object, a field of a per-request class
-         that is initialised in the class body only.
+         that is initialised in the class body only, and an object taken out of the caller's ``*args`` / ``**kwargs``
+         (``kw.get(k)`` / ``kw.pop(k)`` / ``kw[k]`` / ``args[i]``, directly or through a local a definition of which reaching
+         the update is such an expression): the mapping / tuple is built per call, what the caller put into it is not.
+  R12.f  what a request is handed is its own: no function that runs while a request is served returns / yields one long-lived
+         mutable object -- a container the enclosing construction-time function built once and a closure hands to every
+         caller (the converters of a route), a module-level container, the default object of a parameter, a class-level
+         container no instance re-binds (c12_ring.check_handed_out).
 Declined: interleavings inside werkzeug / user code; anything below the Python level.
 """
 import ast
@@ -67,7 +73,8 @@ def run(rep):
     app, route = repo.mod(APP), repo.mod(ROUTE)
     rep.decide('R12.a no shared write on the request path (incl. generated code); R12.b BoundRoute immutable after '
                'construction; R12.c request-id source; R12.d middleware self-write inventory; R12.e no long-lived receiver '
-               'is updated by the middlewares / renderers / shipped applications')
+               'is updated by the middlewares / renderers / shipped applications; R12.f no long-lived mutable object is handed '
+               'out as a per-request value')
     rep.decline('interleavings inside werkzeug / user code; memory-model questions below the Python level')
     rep.assume('itertools.count.__next__ is a single C call under the GIL')
     rep.assume('user-supplied endpoints / middlewares / renderers and werkzeug do not share state between requests')
@@ -88,8 +95,11 @@ def run(rep):
     rep.rule('R12.e', 'outside the core (built-in middlewares, renderers, shipped applications): no update of a positively long-lived receiver '
                       '(long-lived instance, class object, class-level attribute, module-level object, default object); defaults are not '
                       'evaluated-once calls')
-    from .c12_ring import check_ring
+    from .c12_ring import check_ring, check_handed_out
     _group(rep, check_ring, rep, 'R12.e', rp)
+    rep.rule('R12.f', 'no function that runs while a request is served hands out (returns / yields) one long-lived mutable object: a container '
+                      'captured from a construction-time scope, a module-level container, a default object, a class-level container')
+    _group(rep, check_handed_out, rep, 'R12.f', rp)
 
 
 # ---- R12.c: request ids ---------------------------------------------------------------------------------------------
